@@ -116,6 +116,10 @@ HOOK_COMMITS = ["541145e"]
 NOT_YET = {}
 
 INFO = {
+    "C17": dict(technique="sanitizers as the oracle: every workload of the other properties plus boundary probes executed by ASan+UBSan builds with Eigen precondition checks (real and complex), valgrind memcheck in the thorough tier; report blocks keyed by tool, kind and innermost library frame",
+                level_text="The real library, rebuilt from the working tree with AddressSanitizer, UndefinedBehaviorSanitizer and Eigen's precondition checks switched on, executes the generated workloads of all other checks (index chasing on mismatching sparsity patterns, empty frequency lists, 1x1 blocks, heterogeneous lattices, boundary state labels); any report whose innermost frame is library code is a violation; memcheck covers uninitialised reads; this is 'no report on these executions', not memory safety.",
+                level_note="Red-zone tools miss non-adjacent and intra-object overflows; only reached code is observed; leaks are not part of the property and are not counted; MSan is not used.",
+                design_ref="DESIGN.md section 3, C17"),
     "C05": dict(technique="runtime differential monitor: Pomerol::Operator algebra, operator==, commutes, N/Sz shortcuts vs dense Jordan-Wigner matrix algebra; exhaustive for small (modes, length), random beyond",
                 level_text="Every product, sum, difference, scalar multiple, commutator and anticommutator formed by the real library is compared as a matrix (through actRight/getMatrixElement on all Fock states and through the stored normal-ordered monomials) with the same expression of independent Jordan-Wigner matrices: exhaustively for all monomials of length <= 4 over <= 3 modes, all ordered pairs up to total length 4 (quick) / 6 (thorough), all triples of length-<=2 monomials, all CAR pairs for M <= 6, and on random polynomials up to 6 (8) modes and length 8; operator== and commutes() are compared with matrix equality on constructed pair classes; held on what was run, not a proof.",
                 level_note="Trusts Eigen's dense products and the harness's 50-line Jordan-Wigner construction (self-checked); coefficients are drawn from a well separated set so the library's 100*eps erase window is never straddled.",
@@ -205,7 +209,12 @@ def _c16(tier, seed):
     return c16.run(tier, seed)
 
 
-SPECIAL = {"C16": _c16}
+def _c17(tier, seed):
+    from . import c17
+    return c17.run(tier, seed)
+
+
+SPECIAL = {"C16": _c16, "C17": _c17}
 
 
 def run(pid, tier, seed):
